@@ -645,7 +645,7 @@ impl ModuleTrie {
 
         for type_ in &self.types {
             self.write_module(
-                &dir.join(format!("{}.rs", type_.module_name)),
+                &dir.join(format!("{}.rs", self.type_module_name(type_))),
                 &type_.contents,
             )?;
         }
@@ -659,6 +659,16 @@ impl ModuleTrie {
         self.write_module(&dir.join(file_name), &root)?;
 
         Ok(())
+    }
+
+    // A type `Foo` lives in the module `foo` next to the modules of its package's subpackages. If one of those is
+    // also named `foo` the type's module is renamed - types are only ever referenced through the reexport.
+    fn type_module_name(&self, type_: &Type) -> String {
+        let mut name = type_.module_name.clone();
+        while self.submodules.contains_key(&name) {
+            name.push('_');
+        }
+        name
     }
 
     fn write_module(&self, path: &Path, contents: &TokenStream) -> Result<(), Error> {
@@ -680,7 +690,7 @@ impl ModuleTrie {
         };
 
         let uses = self.types.iter().map(|m| {
-            let module_name = m.module_name.parse::<TokenStream>().unwrap();
+            let module_name = self.type_module_name(m).parse::<TokenStream>().unwrap();
             let type_names = m
                 .type_names
                 .iter()
@@ -692,7 +702,7 @@ impl ModuleTrie {
         });
 
         let type_mods = self.types.iter().map(|m| {
-            let module_name = m.module_name.parse::<TokenStream>().unwrap();
+            let module_name = self.type_module_name(m).parse::<TokenStream>().unwrap();
             quote! {
                 pub mod #module_name;
             }
